@@ -282,9 +282,16 @@ fn s_bfs(ctx: &mut Ctx, p: &SParams, depth: usize) {
         }
     };
     let r0 = SRef { p: p.clone(), accepted: vec![] };
-    if let Some(msg) = s_observe(&b0, &r0) {
-        ctx.violation("SparseBuilder.new/wrong", case0(), json!({"observed": msg}));
-        return;
+    match guard(|| s_observe(&b0, &r0)) {
+        Ok(None) => {}
+        Ok(Some(msg)) => {
+            ctx.violation("SparseBuilder.new/wrong", case0(), json!({"observed": msg}));
+            return;
+        }
+        Err(msg) => {
+            ctx.panic_violation("SparseBuilder.new[observe]", &msg, None, case0);
+            return;
+        }
     }
     let mut seen: HashSet<String> = HashSet::new();
     seen.insert(format!("{:?}", b0));
@@ -346,6 +353,17 @@ fn s_replay(ctx: &mut Ctx, p: &SParams, acts: &[SAct]) {
         }
     };
     let mut r = SRef { p: p.clone(), accepted: vec![] };
+    match guard(|| s_observe(&b, &r)) {
+        Ok(None) => {}
+        Ok(Some(msg)) => {
+            ctx.violation("SparseBuilder.new/wrong", case0(), json!({"observed": msg}));
+            return;
+        }
+        Err(msg) => {
+            ctx.panic_violation("SparseBuilder.new[observe]", &msg, None, case0);
+            return;
+        }
+    }
     for (k, act) in acts.iter().enumerate() {
         let case = || json!({"Sparse": {"params": p, "acts": &acts[..=k]}});
         ctx.transitions += 1;
